@@ -19,17 +19,21 @@ ApMp   == ApOf(FALSE, TRUE, TRUE)
 
 LimitOf(ext) == IF ext THEN 65535 ELSE 4096
 
-(* next-hop tokens: n4a n4b (IPv4), n6a n6b (IPv6 global), n6al (global a + link-local) *)
-NhTokens(fam) == CASE fam = "v4"   -> <<"n4a", "n4a", "n4b", "n6a", "n6al">>
+(* next-hop tokens: n4a n4b (IPv4), n6a n6b (IPv6 global), n6al (global a + link-local);
+   m4a m4b: IPv4 unicast learned in MP_REACH_NLRI form with the IPv4 next hop a / b - the path has
+   no NEXT_HOP attribute (the packer synthesises one: on the wire it is a classic route) *)
+ViaMp(nh) == nh \in {"m4a", "m4b"}
+NhSynth(fam, nh) == IF fam = "v4" /\ ViaMp(nh) THEN 7 ELSE 0      \* NEXT_HOP added by the packer
+NhTokens(fam) == CASE fam = "v4"   -> <<"n4a", "n4b", "m4a", "m4b", "m4a", "n6a", "n6al">>
                    [] fam = "v6"   -> <<"n6a", "n6a", "n6b", "n6al">>
                    [] fam = "vpn4" -> <<"n4a", "n4b">>
-NhBytesOf(fam, nh) == CASE fam = "v4" /\ nh \in {"n4a", "n4b"} -> 0       \* classic NEXT_HOP attribute
+NhBytesOf(fam, nh) == CASE fam = "v4" /\ nh \in {"n4a", "n4b", "m4a", "m4b"} -> 0   \* classic NEXT_HOP on the wire
                         [] fam = "vpn4"                        -> 12      \* RD(8) + IPv4
                         [] nh = "n6al"                         -> 32
                         [] OTHER                               -> 16
 
 (* ORIGIN 4 + AS_PATH (one 4-octet AS) 9 + MED 7, + NEXT_HOP 7 for classic IPv4 *)
-BaseAb(fam, nh) == IF NhBytesOf(fam, nh) = 0 THEN 27 ELSE 20
+BaseAb(fam, nh) == IF NhBytesOf(fam, nh) = 0 /\ ~ViaMp(nh) THEN 27 ELSE 20
 
 NlriLen(fam, plen, ap) == (IF fam = "vpn4" THEN 12 ELSE 1) + (plen + 7) \div 8 + (IF ap THEN 4 ELSE 0)
 AttrHdrLen(v) == IF v > 255 THEN 4 ELSE 3
@@ -61,12 +65,12 @@ Concrete(ap, g) ==
            an == g.kind = "ann"
        IN [fam |-> g.fam, pfx |-> g.pfx, plen |-> g.plen, lid |-> g.lid, kind |-> g.kind,
            attrs |-> g.attrs, ab |-> g.ab, nh |-> g.nh,
-           attrBytes |-> IF an THEN g.ab ELSE 0,
+           attrBytes |-> IF an THEN g.ab + NhSynth(g.fam, g.nh) ELSE 0,
            nlriBytes |-> nl,
            nhBytes   |-> IF an THEN NhBytesOf(g.fam, g.nh) ELSE 0,
-           single    |-> IF an THEN SingleLen(g.fam, g.nh, g.ab, nl) ELSE 0,
+           single    |-> IF an THEN SingleLen(g.fam, g.nh, g.ab + NhSynth(g.fam, g.nh), nl) ELSE 0,
            dig       |-> IF an THEN "a" \o ToString(g.attrs) \o "-" \o ToString(g.ab) ELSE "",
-           nhs       |-> IF an THEN g.nh ELSE ""]
+           nhs       |-> IF an THEN (IF g.nh = "m4a" THEN "n4a" ELSE IF g.nh = "m4b" THEN "n4b" ELSE g.nh) ELSE ""]
 
 (* towards a peer without the 4-octet AS capability (RFC 6793 4.2.2) the one-AS AS_PATH shrinks
    by 2 octets and, when its AS does not fit 2 octets (odd attribute-set ids), an AS4_PATH of
@@ -79,7 +83,7 @@ MeasuredAgree(ap, as2, c) ==
   c.kind = "eor" \/
     LET nl == NlriLen(c.fam, c.plen, ap[c.fam]) IN
       /\ c.nlriBytes = nl
-      /\ c.kind = "ann" => /\ c.attrBytes = c.ab
+      /\ c.kind = "ann" => /\ c.attrBytes = c.ab + NhSynth(c.fam, c.nh)
                            /\ c.nhBytes = NhBytesOf(c.fam, c.nh)
-                           /\ c.single = SingleLen(c.fam, c.nh, c.ab + As2Delta(c.attrs, as2), nl)
+                           /\ c.single = SingleLen(c.fam, c.nh, c.ab + NhSynth(c.fam, c.nh) + As2Delta(c.attrs, as2), nl)
 =============================================================================
